@@ -254,6 +254,7 @@ class TlsExtensionServerNameClient(TlsExtensionParsed):
         server_name = bytes(bytearray(parser['server_name']))
         try:
             host_name = six.ensure_text(server_name, 'idna')
+            six.ensure_binary(host_name, 'idna')  # the composer has to be able to encode the name again
         except UnicodeError as e:
             six.raise_from(InvalidValue(server_name, cls, 'host_name'), e)
 
